@@ -31,6 +31,8 @@ def run(res):
     # run-length prefixes that span several values (low levels, >= 1001 numbers, a dominant
     # narrow cluster): every repetition of a run carries its own offset
     cases += rl_range_cases(rng, 80 if thorough else 12)
+    # Huffman codes of 17+ bits (the optimal tree of Fibonacci-like range weights)
+    cases += [deep_huffman_case(8, rng, dt) for dt in (["u32", "i64", "f32"] if thorough else ["u32"])]
     rel_cases = cases[::7]
     out = pl.run_pipeline(res, cases)
     rt_bad, w_bad, r_bad, comp_bad = [], [], [], []
